@@ -16,7 +16,7 @@ PROPS = {
         "rule": "seed files written by the engine's own writers for 13 extensions (3 documents, with/without SAUCE, 0/1/255 comments, compression on/off) plus hand-built streams, fonts (PSF1, PSF2, raw), TheDraw fonts and bundles, 5 palette formats, "
                 "bare SAUCE records, clipboard data and IcyDraw files kept as chunk lists; per seed every truncation point, a value menu at every header/tail byte, every 16/32-bit field (LE and BE) of the first 48 bytes set to extremes singly and in pairs, "
                 "IcyDraw chunk payload truncations / byte and field faults / reorderings / renames with the PNG container kept valid; every prefix <= 64 bytes of every seed under 24 extensions; all byte strings of length <= 2 under every extension and extractor; "
-                "a deviation-bounded product of SAUCE tails; control-token streams (depth <= 2) as files of the 8 text formats; odd file names. non-trivial = the loader accepted the input",
+                "a deviation-bounded product of SAUCE tails; control-token streams (depth <= 2) as files of the 8 text formats; odd file names; PSF2 headers whose (headersize, length, charsize) solve the loader's length equation under signed / unsigned / wrapping readings of 14 extreme operand values (cooperating fields). non-trivial = the loader accepted the input",
         "level_text": "every fault of the stated menus is applied to every seed and loaded by the real loaders and extractors under catch_unwind in killable worker processes",
         "level_note": "faults are single and pairwise (not arbitrary multi-byte corruption); cases cut by the CPU/memory budget are counted, the header-extreme strata are judged under C03's budget by the C03 check",
         "technique": "exhaustive fault enumeration (truncation points, corruption menus, field extremes) over a seed corpus on the implementation",
@@ -37,7 +37,7 @@ PROPS = {
         "bin": "px_text", "budget_ms": 30000, "wall_cap": {"quick": 150, "thorough": 2400},
         "rule": "documents: all rows of width 1..=3 (thorough 4) over an 8-cell alphabet with SAUCE carrying the width (also as 1- and 2-row documents); width 80 rows prefix(<=2 cells).filler.suffix(<=2 cells) with 3 fillers (runs starting at column 0 and ending at 78/79); "
                 "all ordered pairs of a ~28-cell extended alphabet (RGB and xterm colours, bold flag, bright backgrounds, every extended attribute the writer emits, blank variants 0/255, control characters under IcyTerm handling) under 27 (screen preparation x control handling x colour mode) x 5 encoding variants; "
-                "a 9-row core set under every one of the 6912 option vectors; the row families under every vector within 1 (thorough 2) option of the default; heights {1,2,25,60} x widths {1,2,79,80,81,132}. oracle: same character, displayed fg (non-blank glyphs), bg and blink per cell",
+                "runs of length 1..=8 of every extended cell at four row placements under these vectors (+ repeat sequences without cursor forward); a 9-row core set under every one of the 6912 option vectors; framed rows at SAUCE widths 81 / 100 / 132; the row families under every vector within 1 (thorough 2) option of the default; heights {1,2,25,60} x widths {1,2,79,80,81,132}. oracle: same character, displayed fg (non-blank glyphs), bg and blink per cell",
         "level_text": "every document of the stated small scope and every option vector (6912) on a core set is written by the real ANSI writer, parsed by the real loader and compared cell by cell",
         "level_note": "foreground is not compared on blank glyphs; 0/32/255 compare as equal blanks only when whitespace normalisation is on; rows below the writer's last non-blank row may be missing; UTF-8 'modern terminal' output excluded by the statement",
         "technique": "small-scope exhaustive input x configuration enumeration (deviation-bounded product for the wide option space) with a round-trip oracle",
@@ -74,8 +74,8 @@ PROPS = {
     "C08": {
         "bin": "px_editor", "budget_ms": 30000, "wall_cap": {"quick": 150, "thorough": 2400},
         "rule": "every history of length <=2 (thorough <=3) over ~100 operation instances (every public editing operation with in-range and boundary arguments, selection set-up, current-layer / caret set-up steps, atomic groups incl. nesting) "
-                "on 5 start documents (1 layer; offset alpha layer; hidden + locked layers; a shrunk layer with hidden content; custom palette + second font + chars layer + SAUCE); per history: undo step by step down to the start comparing an observational "
-                "snapshot at every operation boundary, redo back up comparing again, undo/redo interleavings of length <=4 from the top, and 'new edit after undo discards redo'. non-trivial = the history grew the undo stack",
+                "on 6 start documents (1 layer; offset alpha layer; hidden + locked layers; a shrunk layer with hidden content; custom palette + second font + chars layer + SAUCE; a tall layer with lazily stored rows and the caret on its last row); per history: undo step by step down to the start comparing an observational "
+                "snapshot at every operation boundary, redo back up comparing again, undo/redo interleavings of length <=4 from the top, and 'new edit after undo discards redo' with every operation of the alphabet as the new edit (h1..hn-1, undo, hn). non-trivial = the history grew the undo stack",
         "level_text": "all edit histories up to the depth bound are executed on the real EditState and every undo / redo walk inside them is compared with snapshots recorded on the way up (differential oracle, no hand-written expected values)",
         "level_note": "an operation that returns Err or panics ends the history before it (the statement quantifies over operations that report success); selection, caret and dirty flags are not part of the document; the statement's random length-40 histories are not claimed",
         "technique": "explicit-state search over operation histories (bounded depth, non-initial start states) with a differential snapshot oracle on every undo/redo transition",
@@ -116,7 +116,7 @@ PROPS = {
         "bin": "px_sauce", "budget_ms": 30000, "wall_cap": {"quick": 150, "thorough": 2400},
         "rule": "per writer that appends SAUCE (ans, asc, avt, pcb, bin, xb, tnd, adf, idf, icy): title/author/group of every length 0..=LEN, LEN+1, LEN+5 x 7 content classes (letters, trailing blank, trailing NULs, inner NUL, leading blank, "
                 "high CP437 / control glyphs, all blanks); every comment count 0..=255 (line lengths cycling 0..=64, lines carrying SAUCE00 / COMNT / EOF bytes); every comment line length 0..=64, 65, 70 x 7 classes as only / second line; "
-                "all 8 flag combinations x (no font + the 16 SAUCE font names); every width 1..=1000 the format can hold; split: engine-written and hand-made contents (empty, 1 byte, 127/128/129 bytes, endings CR LF / EOF / SAUCE00 / COMNT / EOF SAUCE, "
+                "all 8 flag combinations x (no font + the 16 SAUCE font names), also with an attached record that disagrees with the buffer about ice colours; every width 1..=1000 the format can hold; split: engine-written and hand-made contents (empty, 1 byte, 127/128/129 bytes, endings CR LF / EOF / SAUCE00 / COMNT / EOF SAUCE, "
                 "a complete inner SAUCE record) x comment counts (all 0..=255 on the engine document; {0,1,2,3,254,255} on the others, thorough all) x 2 comment styles appended by a reference SAUCE writer; non-trivial = every loadable case",
         "level_text": "every value of each SAUCE field dimension (lengths, counts, flags, fonts, widths) is written by the real writers and read back by the real loader; every listed content x comment count is split by the real extractor and the pictures compared",
         "level_note": "string fields compare by what a fixed-width padded field can carry (trailing blanks / NULs are padding; a zero-terminated field ends at its first NUL); pictures compare cell by cell, the taller buffer may only have blank rows more",
@@ -126,7 +126,7 @@ PROPS = {
     "C12": {
         "bin": "px_layers", "budget_ms": 30000, "wall_cap": {"quick": 120, "thorough": 2400},
         "rule": "every glyph 0..255 of every built-in font page 0..=42 as the middle cell of 3-cell rows with neighbours from {0, 32, 255, 219, 'A'}, 8 colour contexts (incl. bright, equal fg/bg and an extra palette colour), bold on/off, "
-                "both settings of normalize_whitespaces; all stacks of 2 (thorough 3) layers of the small layer menu (alpha / offset / hidden / chars / attributes layers) above a base layer for the flattening step; "
+                "both settings of normalize_whitespaces; every glyph that is blank in its own page between cells of another font page (every page x 3 other pages); all stacks of 2 (thorough 3) layers of the small layer menu (alpha / offset / hidden / chars / attributes layers) above a base layer in 5 states (plain, hidden, locked, moved, alpha) for the flattening step; "
                 "oracle: byte-identical render_to_rgba of input and ColorOptimizer::optimize(input), same size. non-trivial = one middle glyph / one stack",
         "level_text": "the complete glyph range of all built-in fonts and the complete small layer-stack scope are pushed through the real optimiser and renderer and compared pixel for pixel",
         "level_note": "the optimiser is a left-to-right fold over the previous cell's attribute, so 3-cell rows determine its behaviour; the primary font slot is set to the page under test so that the renderer draws every glyph row",
@@ -136,7 +136,7 @@ PROPS = {
     "C13": {
         "bin": "px_layers", "budget_ms": 30000, "wall_cap": {"quick": 120, "thorough": 2400},
         "rule": "all stacks of 1 and 2 layers over the rich layer menu (3 sizes x 4 offsets x 3 modes x alpha x visible x up to 15 contents incl. transparent-colour half blocks, visible NUL and invisible cells) and all stacks of 3 (thorough 4) layers over the small menu; "
-                "laws L1-L5 and the reference compositor R evaluated on every stack at every position of the bounding box + 2 cells; non-trivial = the stack shows at least one visible cell",
+                "laws L1-L6 (L6: a layer placed with set_offset after a preview offset) and the reference compositor R evaluated on every stack at every position of the bounding box + 2 cells; non-trivial = the stack shows at least one visible cell",
         "level_text": "the complete small scope of layer stacks is composited by the real Buffer::get_char and checked against metamorphic stacking laws and a reference compositor transcribed from the statement",
         "level_note": "invisible results compare as invisible only; the reference compositor applies to normal-mode layers without transparent colours, the laws to all stacks",
         "technique": "small-scope exhaustive enumeration with metamorphic oracles and a reference model compared on every case",
@@ -165,7 +165,7 @@ PROPS = {
     "C17": {
         "bin": "px_fonts", "budget_ms": 30000, "wall_cap": {"quick": 150, "thorough": 2400},
         "rule": "bitmap fonts: every height 1..=32 x (2 (thorough 8) synthetic seeds whose glyph rows take every byte value, a rotation font, constant fonts 0x00/0xFF/0x1B/0x36) + every built-in font page 0..=42 + the 16 SAUCE fonts, each through "
-                "PSF2 (incl. rewrite stability), raw data via create_8 / from_basic / from_bytes, the DCS font sequence into slots 0/1/42/255 through the ANSI parser, XBin (1 and 2 fonts, compressed and not), ADF, IDF and IcyDraw (1 and 2 fonts); "
+                "PSF2 (incl. rewrite stability), raw data via create_8 / from_basic / from_bytes, the DCS font sequence into slots 0/1/42/255 through the ANSI parser and a slot redefined three times within one session, XBin (1 and 2 fonts, compressed and not), ADF, IDF and IcyDraw (1 and 2 fonts); "
                 "512-glyph PSF2 fonts of every height; TheDraw: every glyph size 1..=30 x 1..=12 x 3 types x 4 row styles, every number 0..=94 of defined glyphs x 3 placements x 3 types, names of 0..=12 characters, spacing 0..=40, "
                 "94 maximal glyphs (beyond the 16 bit offsets), bundles of 1..=34 mixed fonts x 3 type rotations; non-trivial = every font",
         "level_text": "every font of the stated small scope is pushed through every real encoder / decoder pair and compared bit by bit; TheDraw fonts are compared by name, type, spacing, has_char, rendered glyphs and re-serialised bytes",
@@ -197,9 +197,9 @@ PROPS = {
         "bin": "px_gfx", "budget_ms": 60000, "case_wall_ms": 20000, "judge_budget": True, "mem_cap_mb": 2048, "wall_cap": {"quick": 300, "thorough": 3000},
         "rule": "RIPscrip: every command of the level-0 / level-1 / level-9 tables (+ unknown commands) x parameter strings of every length 0..=24 over {0,1,Z}: all strings up to length 5 (thorough 8) and, beyond, the three constant strings with <=1 (thorough 2) positions changed, "
                 "in the initial state; the deviation-bounded part in 7 further start contexts (small / inverted viewport, xor + user line + user fill pattern, saved image, vertical font + text window, changed palette, button style); 6 terminators; text commands x 25 text tails "
-                "(text variables, button label separators, continuation lines, icon file names) x numeric prefix lengths 0..=12; all ordered command pairs x 9 digit fills x 8 contexts. "
+                "(text variables, button label separators, continuation lines, icon file names) x numeric prefix lengths 0..=12; all ordered command pairs x 9 digit fills; every command followed by 14 well-formed drawing probes; a continuation backslash at every position of every parameter string; flood fills from an 8x6 grid over 7 scenes with obstacles x 6 fill styles x 3 borders. "
                 "IGS: every command letter x 0..=12 parameters over a 24-value menu (0..9, 15, 16, 99, 199, 200, 319, 320, 639, 640, 9998, 99999, -1, -50, empty): 4 constant vectors with <=1 (thorough 2 for <=6 parameters) positions changed, in 6 start contexts; "
-                "loop shapes (from/to/step over {0,3,99999}, 3 separators, 5 parameter templates, 4 counts, 4 looped commands), chains of every command with 8 followers, write-text, every extended sub command 0..=12 x 0..=8 parameters, pauses and loop delays; "
+                "loop shapes (from/to/step over {0,3,99999}, 3 separators, 5 parameter templates, 4 counts, 4 looped commands), chains of every command with 8 followers, write-text, every extended sub command 0..=12 x 0..=8 parameters, pauses and loop delays; every command with 0..=8 parameters (first varied separately) followed by 18 well-formed drawing probes; flood fills over 5 scenes; "
                 "every byte after 8 lead-ins. per stream: catch_unwind per character, CPU <= 0.5 s, wall <= 1.5 s, canvas read back and checked for width x height x 4 bytes; non-trivial = every batch",
         "level_text": "every command of both command tables is executed on the real parsers with every parameter string of the deviation-bounded scope in every start context; nothing is sampled (the 'randomly beyond' part of the quantifier is outside this technique and not claimed)",
         "level_note": "icon / file commands see a harness-owned directory with 4 fixture files (valid, truncated, oversized header, wide); pending IGS loop steps are polled for at most 64 steps",
